@@ -942,18 +942,28 @@ func c08SchedOne(x string, res *c08SchedOut) {
 	}
 }
 
-func c08SchedSpace(tier string) lang.SigmaSpace {
+// spaces of the schedule part: every short alphabet string, and every single edit of
+// programs that contain a task body, a '#' inside a body and a later error (inputs on
+// which a lexer that runs ahead of the parser would have something to run ahead into)
+func c08SchedSpaces(tier string) []lang.Space {
+	n := 3
 	if tier == "thorough" {
-		return lang.SigmaSpace{N: 4}
+		n = 4
 	}
-	return lang.SigmaSpace{N: 3}
+	bases := []string{
+		"task a() {\n    echo a\n}\nX := \"y\"\n",
+		"task a() {\n    echo # c\n}\ntask b( {\nY := \"unterminated\n",
+		"# c\ntask a(\"x\", b) -> (\"o\", X) {\n    echo {{.X}}\n    go test ./...\n}\n\nX := join(\"a\", \"b\")\n",
+	}
+	return []lang.Space{lang.SigmaSpace{N: n}, lang.EditSpace{Label: "sched-edit1", Bases: bases, Chunks: 64}}
 }
 
-// worker: mc worker sched08 <tier> <lo> <hi>
+// worker: mc worker sched08 <tier> <space> <lo> <hi>
 func c08SchedWorker(args []string) {
-	sp := c08SchedSpace(args[0])
-	lo, _ := strconv.ParseInt(args[1], 10, 64)
-	hi, _ := strconv.ParseInt(args[2], 10, 64)
+	si, _ := strconv.Atoi(args[1])
+	sp := c08SchedSpaces(args[0])[si]
+	lo, _ := strconv.ParseInt(args[2], 10, 64)
+	hi, _ := strconv.ParseInt(args[3], 10, 64)
 	var res c08SchedOut
 	prog := pool.OpenProgress()
 	prog.Watchdog(60 * time.Second)
@@ -963,35 +973,45 @@ func c08SchedWorker(args []string) {
 			c08SchedOne(in.Text, &res)
 		})
 	}
-	// a few structured inputs beyond the short strings
-	if lo == 0 {
-		for _, x := range []string{"# c\ntask a(\"x\", b) -> (\"o\", X) {\n    echo {{.X}}\n    go test ./...\n}\n\nX := join(\"a\", \"b\")\n", "task a() {\n echo a", "X := \"unterminated\ntask b() {}\n", "task a(", "task a() -> (\"o\" {"} {
-			c08SchedOne(x, &res)
-		}
-	}
 	os.Stdout.Write(pool.MustJSON(res))
 }
 
 func c08SchedCheck(tier string) int {
-	sp := c08SchedSpace(tier)
-	n := sp.Count()
-	per := (n + 127) / 128
+	spaces := c08SchedSpaces(tier)
+	type shard struct {
+		si     int
+		lo, hi int64
+	}
+	var shards []shard
+	for si, sp := range spaces {
+		n := sp.Count()
+		per := (n + 127) / 128
+		for lo := int64(0); lo < n; lo += per {
+			hi := lo + per
+			if hi > n {
+				hi = n
+			}
+			shards = append(shards, shard{si, lo, hi})
+		}
+	}
 	var mu sync.Mutex
 	var total c08SchedOut
 	failed := false
-	pool.Parallel(int((n+per-1)/per), func(k int) {
-		lo, hi := int64(k)*per, int64(k+1)*per
-		if hi > n {
-			hi = n
-		}
-		out := pool.RunWorker([]string{"sched08", tier, strconv.FormatInt(lo, 10), strconv.FormatInt(hi, 10)}, nil, budget(tier), true)
+	pool.Parallel(len(shards), func(k int) {
+		sh := shards[k]
+		sp := spaces[sh.si]
+		out := pool.RunWorker([]string{"sched08", tier, strconv.Itoa(sh.si), strconv.FormatInt(sh.lo, 10), strconv.FormatInt(sh.hi, 10)}, nil, budget(tier), true)
 		mu.Lock()
 		defer mu.Unlock()
 		if out.Crashed() {
 			var culprit string
-			sp.Gen(out.Progress[0], func(in lang.Input) { culprit = in.Text })
+			sp.Gen(out.Progress[0], func(in lang.Input) {
+				if culprit == "" {
+					culprit = in.Text
+				}
+			})
 			total.Viol = append(total.Viol, ev.Violation{Engine: "schedmc-c08", Key: strconv.Quote(culprit) + " worker", Class: "process-crash-or-hang",
-				What: fmt.Sprintf("worker died or hung (exit=%d signal=%s timeout=%v) exploring the schedules of input %s: %s", out.ExitCode, out.Signal, out.TimedOut, strconv.Quote(culprit), firstLines(string(out.Stderr), 5)), Case: map[string]any{"input": culprit}})
+				What: fmt.Sprintf("worker died or hung (exit=%d signal=%s timeout=%v) exploring the schedules of an input near %s: %s", out.ExitCode, out.Signal, out.TimedOut, strconv.Quote(culprit), firstLines(string(out.Stderr), 5)), Case: map[string]any{"input": culprit}})
 			return
 		}
 		var r c08SchedOut
@@ -1036,5 +1056,138 @@ func c08SchedReplay(path string) int {
 		return 1
 	}
 	fmt.Println("no violation on replay")
+	return 0
+}
+
+// ---------------------------------------------------------------------------
+// C17, schedule part: file.Find under the controlled scheduler (a no-op today, Find is
+// sequential: one schedule per call). Should discovery ever probe directories
+// concurrently, every interleaving of every call is explored and the answer must be the
+// same, correct one on all of them.
+
+func init() {
+	checks["C17sched"] = c17SchedCheck
+	workers["sched17"] = c17SchedWorker
+}
+
+type c17SchedOut struct {
+	Calls int64          `json:"calls"`
+	Execs int64          `json:"execs"`
+	Viol  []ev.Violation `json:"viol"`
+}
+
+// worker: mc worker sched17 <lo> <hi>   (top-level variant range, sandbox in VERIF_SANDBOX)
+func c17SchedWorker(args []string) {
+	lo, _ := strconv.Atoi(args[0])
+	hi, _ := strconv.Atoi(args[1])
+	root := os.Getenv("VERIF_SANDBOX")
+	var res c17SchedOut
+	base := filepath.Join(root, "w")
+	unrelated := filepath.Join(base, "u", "v")
+	os.MkdirAll(unrelated, 0o755)
+	const depth = 3
+	dirs := make([]string, depth)
+	d := filepath.Join(base, "c")
+	for i := 0; i < depth; i++ {
+		d = filepath.Join(d, "k")
+		dirs[i] = d
+	}
+	os.MkdirAll(dirs[depth-1], 0o755)
+	levels := make([]int, depth)
+	var rec func(i int)
+	rec = func(i int) {
+		if i == depth {
+			for start := 0; start < depth; start++ {
+				for stop := 0; stop <= start; stop++ { // start at or below stop: at most three directories, i.e. threads, are involved
+					c := c17Case{Levels: append([]int{}, levels...), Start: start, Stop: stop}
+					stopDir := unrelated
+					if stop >= 0 {
+						stopDir = dirs[stop]
+					}
+					res.Calls++
+					var out c17Out
+					outcomes := map[string]bool{}
+					st := explore(vsched.Options{Budget: 20000}, func() { out = c17Find(dirs[start], stopDir) }, "pruned", 0, 0, 20000, func(r *vsched.Result, choices []int) {
+						cls, what := "", ""
+						switch {
+						case len(r.Panics) > 0:
+							cls, what = "panic-in-goroutine", firstLines(r.Panics[0], 3)
+						case r.Deadlock:
+							cls, what = "does-not-terminate", "Find never returns: "+strings.Join(r.BlockedAt, "; ")
+						case r.Livelock:
+							cls, what = "does-not-terminate", "operation budget exceeded"
+						case r.Leaked > 0:
+							cls, what = "goroutine-leak", strings.Join(r.LeakedAt, "; ")
+						default:
+							// the sequential oracle on this schedule's answer (levels padded to the depth the oracle expects)
+							cc := c
+							cc.Levels = append(append([]int{}, c.Levels...), 0)
+							cls, what = c17Oracle(cc, append(append([]string{}, dirs...), filepath.Join(dirs[depth-1], "k")), unrelated, out)
+							outcomes[out.Path+"|"+out.Err] = true
+						}
+						if cls != "" && len(res.Viol) < 20 {
+							var m map[string]any
+							json.Unmarshal(pool.MustJSON(c), &m)
+							res.Viol = append(res.Viol, ev.Violation{Engine: "schedmc-c17", Key: fmt.Sprintf("sched levels=%v start=%d stop=%d %s", c.Levels, start, stop, cls), Class: cls,
+								What: fmt.Sprintf("chain %s start=level%d stop=%s, schedule %v: %s", c17Describe(c), start, c17StopName(stop), choices, what), Case: m})
+						}
+					})
+					res.Execs += st.Execs
+					if len(outcomes) > 1 && len(res.Viol) < 20 {
+						res.Viol = append(res.Viol, ev.Violation{Engine: "schedmc-c17", Key: fmt.Sprintf("sched levels=%v start=%d stop=%d nondeterministic", c.Levels, start, stop), Class: "result-depends-on-schedule",
+							What: fmt.Sprintf("chain %s start=level%d stop=%s: %d different answers over the interleavings", c17Describe(c), start, c17StopName(stop), len(outcomes)), Case: map[string]any{"levels": c.Levels}})
+					}
+				}
+			}
+			return
+		}
+		l, h := 0, 12
+		if i == 0 {
+			l, h = lo, hi
+		}
+		for v := l; v < h; v++ {
+			if v&3 != 0 && v&3 != 3 {
+				continue // other entries: none or both (the sequential check covers all four)
+			}
+			levels[i] = v
+			c17Populate(dirs[i], v)
+			rec(i + 1)
+			c17Clear(dirs[i])
+		}
+	}
+	rec(0)
+	os.Stdout.Write(pool.MustJSON(res))
+}
+
+func c17SchedCheck(tier string) int {
+	var mu sync.Mutex
+	var total c17SchedOut
+	pool.Parallel(12, func(k int) {
+		sbroot := filepath.Join(pool.Scratch, fmt.Sprintf("c17s.%d", k))
+		os.MkdirAll(sbroot, 0o777)
+		pool.ChownNobody(sbroot)
+		defer os.RemoveAll(sbroot)
+		out := pool.RunWorker([]string{"sched17", strconv.Itoa(k), strconv.Itoa(k + 1)}, nil, budget(tier), true, "VERIF_SANDBOX="+sbroot)
+		mu.Lock()
+		defer mu.Unlock()
+		if out.Crashed() {
+			total.Viol = append(total.Viol, ev.Violation{Engine: "schedmc-c17", Key: fmt.Sprintf("sched worker %d", k), Class: "process-crash-or-hang",
+				What: fmt.Sprintf("worker died or hung (exit=%d signal=%s timeout=%v): %s", out.ExitCode, out.Signal, out.TimedOut, firstLines(string(out.Stderr), 5)), Case: map[string]any{"k": k}})
+			return
+		}
+		var r c17SchedOut
+		if json.Unmarshal(out.Stdout, &r) == nil {
+			total.Calls += r.Calls
+			total.Execs += r.Execs
+			total.Viol = append(total.Viol, r.Viol...)
+		}
+	})
+	dst := os.Getenv("VERIF_C17_SCHED_OUT")
+	if dst == "" {
+		os.Stdout.Write(pool.MustJSON(total))
+		return 0
+	}
+	os.WriteFile(dst, pool.MustJSON(total), 0o644)
+	fmt.Printf("C17 schedule part: calls=%d schedules=%d violations=%d\n", total.Calls, total.Execs, len(total.Viol))
 	return 0
 }
